@@ -38,11 +38,11 @@ def parseObj (s : String) : Option (List Nat) :=
   else none
 
 /-- expand a schedule spec to an explicit list long enough for `calls` read calls -/
-def parseSched (s : String) (l : Nat) (transfers : Nat) : Option (List Nat) :=
+def parseSched (s : String) (l e : Nat) (transfers : Nat) : Option (List Nat) :=
   let body := (s.drop 1).toString
   if s.startsWith "f" then do
     let n ← body.toNat?
-    pure (List.replicate ((l / Nat.max n 1 + 2 * l + 32) * transfers) n)
+    pure (List.replicate ((l / Nat.max n 1 + 2 * (l / Nat.max e 1 + 2) + 32) * transfers) n)
   else if s.startsWith "l" then (body.splitOn ".").mapM (·.toNat?)
   else if s.startsWith "r" then
     match body.splitOn "." with
@@ -86,7 +86,7 @@ def opNew (legacy : Bool) (a : List String) : Option St × String :=
           if isBuf then some (.buffer te)
           else if src == "cur" || src == "file" || src == "bufrd" then some (.stream { bytes := obj, pos := 0, sched := [] })
           else if src.startsWith "chk:" then
-            match parseSched (src.drop 4).toString obj.length (maxtc + 4) with
+            match parseSched (src.drop 4).toString obj.length e (maxtc + 4) with
             | some sc => some (.stream { bytes := obj, pos := 0, sched := sc })
             | none => none
           else none
@@ -99,7 +99,10 @@ def opNew (legacy : Bool) (a : List String) : Option St × String :=
           -- FileDesc::new
           if l > maxTransferLength cap maxSbn e b then (none, "ERR add") else
           -- D21 / D25 (repaired): Reed-Solomon GF(2^8) needs 1 ≤ parity and B + parity ≤ 256
-          if !legacy && (scheme == "rs28" || scheme == "rs28us") && (p = 0 ∨ b + p > 256) then (none, "ERR add") else
+          let aLarge := match Partition.blockPartitioning b l e with
+            | .ok (aL, _, _, _) => aL
+            | .error _ => 0
+          if !legacy && (scheme == "rs28" || scheme == "rs28us") && (p = 0 ∨ aLarge + p > 256) then (none, "ERR add") else
           let P : Params := { codec := codec, e := e, b := b, p := p, window := win, len := l, legacy := legacy }
           (some { sess := { P := P, src := source, maxtc := maxtc, carousel := car == 1, allowStop := allow == 1 }, scheme := scheme },
            s!"ok {l}")
